@@ -81,10 +81,10 @@ def replay_sp_main_{L}(t):
 ''')
     # histories on the real store: first operation fixed per condition, the rest symbolic
     n = 3 if quick else 4
-    for op0 in range(7):
+    for op0 in range(8):
         for t0 in range(2):
             ps = ", ".join(f"o{i}: int, t{i}: int" for i in range(1, n))
-            pre = " and ".join(f"0 <= o{i} < 7 and 0 <= t{i} < 2" for i in range(1, n))
+            pre = " and ".join(f"0 <= o{i} < 8 and 0 <= t{i} < 2" for i in range(1, n))
             ops = f"[({op0}, {t0}), " + ", ".join(f"(o{i}, t{i})" for i in range(1, n)) + "]"
             out.append(f'''
 def hist_{op0}_{t0}({ps}) -> bool:
@@ -128,7 +128,7 @@ def run(rep: C.Report) -> None:
         "yields the titles actually queried; CrossHair checks for every symbolic title (characters over {a,A,_,space,b}) and every spelling variant "
         "(prefix given/omitted/lower-case/alias, underscore vs space, lower-case first letter) that the written key is among the queried titles, and that a "
         "title differing in the case of a later letter is not. Read-after-write: on the REAL SQLite store and the REAL lru_cache, every history of "
-        "3 (thorough: 4) operations from {add v1, add v2, add redirect, get, exists, body, resolve-redirect} x 2 titles equals a dict model; the first operation is fixed "
+        "3 (thorough: 4) operations from {add v1, add v2, add v1 with another content model, add redirect, get, exists, body, resolve-redirect} x 2 titles equals a dict model; the first operation is fixed "
         "per condition and the solver drives the case split over the rest (said openly: finite enumeration by forks)."
     )
     rep.assumptions += ["recorder stub answers 'no rows'; SQL text is not interpreted (only the bound values are compared)", "redirect resolution is one hop within the same namespace"]
@@ -140,7 +140,7 @@ def run(rep: C.Report) -> None:
         H,
         {
             "^sp_": dict(name="Ob1 add_page key is among the titles get_page queries, for every spelling variant; later-letter case is significant", functions=["core.py:Wtp.add_page", "core.py:Wtp.get_page"], bounds=f"titles of 1..{3 if quick else 4} symbolic characters over {{a,A,_,space,b}}; namespaces Template, Module, Main"),
-            "^hist_": dict(name="Ob2/Ob3 read-after-write and one-hop redirect on the real store", functions=["core.py:Wtp.add_page", "core.py:Wtp.get_page", "core.py:Wtp.page_exists", "core.py:Wtp.get_page_resolve_redirect"], bounds=f"all histories of {3 if quick else 4} operations over 7 operation kinds x 2 titles (case split by forks)"),
+            "^hist_": dict(name="Ob2/Ob3 read-after-write and one-hop redirect on the real store", functions=["core.py:Wtp.add_page", "core.py:Wtp.get_page", "core.py:Wtp.page_exists", "core.py:Wtp.get_page_resolve_redirect"], bounds=f"all histories of {3 if quick else 4} operations over 8 operation kinds x 2 titles (case split by forks)"),
         },
         timeout=90 if quick else 600,
         src=src,
